@@ -787,6 +787,17 @@ class Chan(Engine):
             for other in ('bc', 'tb', 'bcrt', hrp + 'x', hrp[:-1] or 'b'):
                 if other != hrp:
                     self._b32_judge(hrp, self._craft(other, [ver] + d5), 'crafted for prefix %r' % other, (ver, prog), False, fault='crafted', rule='other-hrp')
+            # a character from outside the alphabet in a position the payload conversion never looks at (the
+            # version character, a checksum character), with the checksum computed the way an implementation
+            # that maps unknown characters to -1 would compute it: valid for that implementation, invalid in BIP173
+            if n in (20, 32, 2, 40):
+                for foreign in 'bio1':
+                    for pos in (0,):
+                        vals = [-1] + d5
+                        cs = RB32.checksum(hrp, vals)
+                        chars = [foreign if v == -1 else CS[v] for v in vals] + [CS[c] for c in cs]
+                        self._b32_judge(hrp, hrp + '1' + ''.join(chars), 'crafted with the non-alphabet character %r as version character and a checksum valid under "-1 for unknown"' % foreign,
+                                        (ver, prog), False, fault='crafted', rule='foreign-char-steered')
             # checksum computed over the upper-case prefix (mixed-case trap)
             t = self._craft(hrp, [ver] + d5)
             self._b32_judge(hrp, hrp.upper() + t[len(hrp):], 'with only the prefix in upper case', (ver, prog), False, fault='crafted', rule='mixed')
